@@ -81,7 +81,7 @@ def violation(prob, w, strategy="subdiff", family="cd"):
             us, _ = P.prox_scalar(pen, float(wv[j] - s * g[j]), s, j)
             d[j] = min(abs(wv[j] - u) for u in us)
     elif strategy == "fixpoint" and pen["kind"] in ("L2_1", "WeightedGroupL2", "WeightedL1GroupL2",
-                                                     "BlockMCPenalty", "BlockSCAD"):
+                                                     "BlockMCPenalty", "BlockSCAD", "L2_05"):
         d = _fixpoint_block(prob, wv, g)
     else:
         d = P.subdiff_dist(pen, wv, g)
